@@ -80,6 +80,11 @@ BABEL_KW = [("currency:group_separator", "1234 | currency: group_separator: %s")
             ("unit:denominator", "1 | unit: 'length-meter', denominator: %s"),
             ("unit:denominator_unit", "1 | unit: 'length-meter', denominator_unit: %s"),
             ("money:group_separator", "1234 | money: group_separator: %s")]
+INJECTED_KW = {
+    "context": ["t", "gettext", "ngettext: 'b', 2", "unit: 'length-meter'", "currency", "decimal", "datetime", "money",
+                "map: x => x.title", "where: x => x.title", "sort: x => x.n", "find: x => x.n", "sum: x => x.n"],
+    "environment": ["join: '-'", "date: '%Y'", "json", "escape", "strip_html", "safe", "newline_to_br", "default: 'd'"],
+}
 TRANS_FILTERS = ["t", "gettext", "ngettext", "pgettext", "npgettext"]
 FOR_HIDDEN = ["it", "item", "_index", "step", "_keys", "__class__", "__init__", "__dict__", "__slots__",
               "__module__", "__doc__", "__len__", "__iter__", "keys", "items", "get", "__next__"]
@@ -408,7 +413,7 @@ class Gen:
     # -- units
     def unit(self) -> dict[str, Any]:  # noqa: PLR0911, PLR0912, PLR0915
         self.used = []
-        kind = self.draw(_INTS[34])
+        kind = self.draw(_INTS[36])
         flag = None
         if kind == 0:
             site, src = "path-dot", "{{ %s.%s }}" % (self.target(), self.name())
@@ -620,6 +625,13 @@ class Gen:
                 f = self.pick(BABEL_LEFT)
                 site = "babel-left:" + f.split(":")[0]
                 src = "{{ %s | %s }}" % (self.tpath(), f)
+        elif kind in (34, 35):
+            # the keyword arguments the engine itself passes to filters, supplied by the template instead
+            kw = self.pick(["context", "environment"])
+            f = self.pick(INJECTED_KW[kw])
+            site = "injected-kwarg:" + kw
+            src = "{{ %s | %s%s %s: %s }}" % (self.pick(["'a'", "ms", "1", "'now'"]), f, "," if ":" in f else ":", kw,
+                                              self.pick(["p", "m", "r", "q", self.tpath()]))
         else:
             site = "range-loop-args"
             src = self.pick([
